@@ -136,6 +136,16 @@ class LR1:
                 else: row[t] = ('err',)
             self.action.append(row)
             self.goto.append({k: self.trans[i].get(('n', k)) for k in range(g.nnt)})
+        # states the parser can actually reach once conflicts are resolved: a shift suppressed by the resolution (reduce preferred, or an R/R cell)
+        # is never taken, so a table builder need not (and ctpg does not) create states reachable only through it
+        live = {0}; work = [0]
+        while work:
+            i = work.pop()
+            nxt = [self.goto[i][k] for k in range(g.nnt) if self.goto[i][k] is not None] + [a[1] for a in self.action[i].values() if a[0] == 's']
+            for j in nxt:
+                if j not in live: live.add(j); work.append(j)
+        self.live = live
+        self.conflicts = [c for c in self.conflicts if c[0] in live]
         self.has_rr = any(c[2] == 'rr' for c in self.conflicts)
         self.has_sr = any(c[2] == 'sr' for c in self.conflicts)
         self.conflict_free = not self.conflicts
